@@ -13,6 +13,7 @@ import (
 
 func init() {
 	register(&PropertyCheck{ID: "C15", Level: "other", Run: checkC15, Canaries: []Canary{
+		{Name: "vbi-property-fast-path-shifts-by-8", Rule: "R15.6", Where: "(vbint).fill", Edits: []Edit{{"wiretypes.go", "func (v vbint) fillProp(data []byte, i int, id Ident) int {\n\tif v == 0 {\n\t\treturn 0\n\t}\n\tn := i\n\ti += id.fill(data, i)\n\ti += v.fill(data, i)\n\treturn i - n", "func (v vbint) fillProp(data []byte, i int, id Ident) int {\n\tswitch {\n\tcase v == 0:\n\t\treturn 0\n\n\t// identifiers are small in practice, the one and two byte forms\n\t// are written in one go\n\tcase v < 128:\n\t\treturn fillBytes(data, i, byte(id), byte(v))\n\tcase v < 128*128:\n\t\treturn fillBytes(data, i, byte(id), byte(v)|128, byte(v>>8))\n\t}\n\tn := i\n\ti += id.fill(data, i)\n\ti += v.fill(data, i)\n\treturn i - n\n}\n\n// fillBytes writes the given bytes at position i if there is room for\n// them. Returns the number of bytes.\nfunc fillBytes(data []byte, i int, b ...byte) int {\n\tif len(data) >= i+len(b) {\n\t\tcopy(data[i:], b)\n\t}\n\treturn len(b)"}}},
 		{Name: "two-byte-fast-path-forgets-the-mask", Rule: "R9.3", Where: "(*vbint).UnmarshalBinary#single-path", Edits: []Edit{{"wiretypes.go", "\tvar multiplier uint = 1\n\tvar value uint\n\tfor _, encodedByte := range data {", "\tif b0 := data[0]; b0 < 128 {\n\t\t*v = vbint(b0)\n\t\treturn nil\n\t} else if len(data) > 1 && data[1] < 128 {\n\t\t*v = vbint(b0) | vbint(data[1])<<7\n\t\treturn nil\n\t}\n\tvar multiplier uint = 1\n\tvar value uint\n\tfor _, encodedByte := range data {"}}},
 		{Name: "minimality-check-in-one-decoder-only", Rule: "R9.3", Where: "(*vbint).ReadFrom#single-path", Edits: []Edit{{"wiretypes.go", "\t\tmultiplier = multiplier * 128\n\t}\n\t*v = vbint(value)\n\treturn i, nil", "\t\tmultiplier = multiplier * 128\n\t}\n\tif i > 1 && data[0] == 0 {\n\t\treturn i, unmarshalErr(v, \"\", \"not minimal\")\n\t}\n\t*v = vbint(value)\n\treturn i, nil"}}},
 		{Name: "helper-rewrites-the-decoded-value", Rule: "R9.3", Where: "(*vbint).ReadFrom#single-path", Edits: []Edit{{"wiretypes.go", "\t\tmultiplier = multiplier * 128\n\t}\n\t*v = vbint(value)\n\treturn i, nil\n}", "\t\tmultiplier = multiplier * 128\n\t}\n\t*v = vbint(value)\n\tclampVBI(v)\n\treturn i, nil\n}\n\nfunc clampVBI(v *vbint) {\n\tif *v > 268435455 {\n\t\t*v = 268435455\n\t}\n}"}}},
